@@ -1,5 +1,5 @@
 (** C03 — Unacknowledged QoS 1/2 deliveries are retransmitted until completed. *)
-From Wasp Require Import Model.Base Spec.MatchSpec Model.DState Model.IdPool Model.Mount Model.Node Proofs.BaseFacts Proofs.MountFacts Proofs.NodeFacts.
+From Wasp Require Import Model.Base Spec.MatchSpec Model.DState Model.IdPool Model.Mount Model.Node Proofs.BaseFacts Proofs.MountFacts Proofs.NodeFacts Proofs.IdsFacts Proofs.RetransmitFacts.
 From stdpp Require Import list strings.
 Open Scope Z_scope.
 
@@ -44,6 +44,30 @@ Theorem completion_frees : ∀ bad n e expired,
   end.
 Proof. exact completion_frees. Qed.
 Print Assumptions completion_frees.
+
+(** Over histories.  In EVERY state a history can reach ([reachable]), an expiry sweep on node i
+    re-sends every pending outbound delivery [e] whose session is still registered: the same
+    packet ([resend_pkt e]: the PUBLISH as first sent, or the PUBREL) is written to that
+    session's connection, and the entry stays pending under the same key and tag — so the next
+    sweep finds it again: "sent again every time its deadline passes, until" the expected
+    acknowledgement removes it ([completion_frees]) "or the session ends": *)
+Theorem retransmitted_every_sweep : ∀ cl k i e s, reachable k cl →
+  e ∈ n_acks (getn cl i) → outbound e = true → alookup (tag_sid (a_tag e)) (n_reg (getn cl i)) = Some s →
+  (i < length (cl_nodes cl))%nat →
+  let r := sweep cl i in
+  rearm e ∈ n_acks (getn r.1 i) ∧ akey (rearm e) = akey e ∧ a_tag (rearm e) = a_tag e ∧
+  (¬ ss_conn s ∈ cl_bad cl → Out (ss_conn s) (resend_pkt e) ∈ r.2).
+Proof. exact sweep_resends_pending. Qed.
+Print Assumptions retransmitted_every_sweep.
+
+(** ... and after the session has ended the sweep sends nothing for the entry, nothing holds its
+    identifier any more, and the pool has it back ("its identifier becomes reusable"). *)
+Theorem ended_session_frees_identifier : ∀ cl k i e, reachable k cl → (i < length (cl_nodes cl))%nat →
+  e ∈ n_acks (getn cl i) → outbound e = true → alookup (tag_sid (a_tag e)) (n_reg (getn cl i)) = None →
+  let n' := getn (sweep cl i).1 i in
+  a_mid e ∉ out_mids (n_acks n') ∧ IdPoolFacts.infree (ivs (n_pool n')) (a_mid e).
+Proof. exact sweep_frees_dead. Qed.
+Print Assumptions ended_session_frees_identifier.
 
 (** An acknowledgement of the wrong type, or for an identifier that is not in flight, changes nothing. *)
 Theorem wrong_ack_harmless : ∀ cl c ty mid clk k i n s,
